@@ -47,7 +47,9 @@ def bounds(tier):
     # (the complete trees of sources with 3+3 scores and 3+3 easy samples, tried first, do not finish within an hour)
     return {"sizes": [[1, 1], [2, 1], [1, 2], [2, 2], [1, 0], [0, 2], [3, 1], [1, 3], [0, 1]],
             "easy": [[0, 0], [1, 0], [0, 2], [1, 2], [2, 0]], "ratios": [0.5, 0.34, 0.99, 0.67],
-            "switch_sizes": [99, 100, 101], "deviations": 2, "strata_easy": list(range(0, 101))}
+            # (two deviations at the switch sizes - about 20,000 runs of 200-score samples per item - do not finish in half
+            # an hour either: one deviation, as in the quick tier)
+            "switch_sizes": [99, 100, 101], "deviations": 1, "strata_easy": list(range(0, 101))}
 
 
 def work(tier, seed):
